@@ -53,7 +53,7 @@ def render (w : Wrote) : B :=
 /-- the client's announce request, as (*Request).String renders it -/
 def announceRequest : B :=
   Gen.requestMethod ++ [32, 47, 32, 72, 84, 84, 80, 47, 49, 46, 49] ++ crlf
-    ++ Gen.acceptsProtocolVersion ++ colonSp ++ Gen.protocolVersion ++ crlf
+    ++ Gen.acceptsProtocolVersion ++ colonSp ++ Gen.c06ProtocolVersion ++ crlf
     ++ Gen.userAgent ++ colonSp ++ bSocketaceSlash ++ Gen.unknownVersion ++ crlf ++ crlf
 
 structure Pair where
